@@ -56,7 +56,9 @@ MANIFEST = {
             "claims) from any state, each request's specified answer block is handed to SendMsg at its event (nothing while "
             "claiming, data or exactly one NAK, never a NAK for a broadcast); an armed product/configuration retry survives any "
             "history until the answer is handed over again, which - fairness stated as a hypothesis - happens at the latest at "
-            "a poll at which the armed timer is due; a cleared timer is never due. Correspondence: the real node behind the mock driver vs the model on generated "
+            "a poll at which the armed timer is due; a cleared timer is never due; C08_refused_product_arms / C08_refused_config_arms tie the invariant to "
+            "the refused hand-over; C08_answer_on_bus_partial: with an accepting driver and an empty queue the single-frame answers "
+            "(address claim, NAK) are exactly one more frame at the driver with C01's identifier, and the node stays accepting. Correspondence: the real node behind the mock driver vs the model on generated "
             "requests (special PGNs +-1, ignore list, random and - thorough - all 2^24 PGNs against an independent decoder "
             "oracle plus 2^18 stratified through the model), 1..9 devices, handlers, strings beyond the limits, claim windows, "
             "driver refusals with retry, product AND configuration information refused together (same/different devices, "
@@ -68,5 +70,6 @@ MANIFEST = {
             "address 255, also for broadcast requests); the model follows the fixed code. Trusted: Lean kernel; hand "
             "transcription validated by differential runs only; AddVarStr for 7-bit strings only; the 'sends not refused' part of "
             "'always answered' is C11's: the run-level theorem is message level (handed to SendMsg) and therefore named _partial; "
-            "'driver accepts => on the bus' is proved per message (C08_nak_on_bus, C01, C11), not composed over histories.",
+            "'driver accepts => on the bus' is composed for the single-frame answers (C08_answer_on_bus_partial); for the "
+            "fast-packet answers (126464/126996/126998) and handler messages it remains C01/C11's per-message statement.",
 }
